@@ -42,6 +42,43 @@ SEEDS = {
     "C17-1": dict(property="C17", what="Task::wake ignores a wake that arrives while the task is Blocked",
                   needs="a future that blocks on a primitive inside its poll, a wake during that time, then Pending",
                   harness="c17_wake_seq4 (ops 'block inside the poll' / 'released' added after the first version missed it)"),
+    "C05-2": dict(property="C05", what="Task::unpark drops the token when the target is Blocked on something other than park",
+                  needs="unpark of a thread that is blocked in a condvar wait / join, which is then released and parks",
+                  harness="c05_park_seq4"),
+    "C17-2": dict(property="C17", what="Task::abort no longer marks the task as woken unless it is already asleep",
+                  needs="an abort that lands while the future is in the middle of a poll that then returns Pending",
+                  harness="c17_wake_seq4 (its wake operation goes through Task::abort)"),
+    "C13-3": dict(property="C13", what="reset_step_count stores len()-1: after a reset the count restarts at 1, the bound trips one step early",
+                  needs="a step bound, a reset_step_count call after at least one recorded step, and a stretch of exactly n steps after it",
+                  harness="c13_reset_then_bound (added for this change: reset_step_count itself was outside every C13 harness, which "
+                          "only set the reset point directly)"),
+    "C16-3": dict(property="C16", what="the task-id width is truncated to u32 before validation: a width >= 2^32 whose low 32 bits are 1..=64 is accepted",
+                  needs="a header whose width varint is at least 5 bytes long",
+                  harness="c16_header_width_5 (added for this change: the malformed-input harnesses stop at 3-byte vectors, too short for a "
+                          "5-byte varint; the new family fixes the varint's byte length and leaves all its payload bits symbolic)"),
+    "C15-3": dict(property="C15", what="VectorClock::update ignores trailing zero entries of the other clock (result can be shorter than the operand)",
+                  needs="an update from a longer clock whose extra entries end in zeros",
+                  harness="c15_laws_2_3 / c15_laws_concrete_probes - but not by a solver verdict: with this change the formula of every laws/lub "
+                          "instance exhausts the 12 GB cap (the result length becomes data-dependent, SmallVec::extend gets a symbolic size), "
+                          "the first evaluation ended inconclusive (exit 2, no VIOLATION). The driver now follows a solver resource-out with a "
+                          "native random search of the same harness against the real code; that search finds [_,_].update([_,_,0]) at once "
+                          "and the failure is reported with `found_by` set accordingly in the replay file"),
+    "C20-3": dict(property="C20", what="Default for HashSet builds the inner std set with Default::default() (randomly keyed)",
+                  needs="a set obtained through Default (derive(Default), mem::take, or_default)",
+                  harness="c20_set_constructors_concrete_probes"),
+    "C10-1": dict(property="C10", what="RandomScheduler::new_execution no longer re-seeds the scheduling generator from the iteration's seed",
+                  needs="the second or a later iteration, replayed alone from its reported seed (task choices differ, data draws do not)",
+                  harness="c10_random_seed_reproduces_2"),
+    "C08-3": dict(property="C08", what="the portfolio stop-flag wrapper answers random draws with 0 (without asking the inner scheduler) once the flag is up",
+                  needs="a portfolio member that draws from shuttle::rand after another member has failed and before its next scheduling point",
+                  harness="c08_portfolio_stop_wrapper"),
+    "C16-4": dict(property="C16", what="the cut-short guard computes (announced_len + 7) / 8: an announced length >= 2^64-7 overflows (panic) instead of being rejected",
+                  needs="a header whose length field is a ten-byte varint with a value of at least 2^64-7",
+                  harness="c16_header_len_10 (the 9- and 10-byte instances for the length field were added when this change arrived: until "
+                          "then only the width and seed fields had ten-byte instances, the length field stopped at five bytes)"),
+    "C01-3": dict(property="C01", what="ReplayScheduler::next_task only matches a recorded task that is Runnable: a task offered while parked (spurious wake-up allowed) is refused",
+                  needs="a recorded step that schedules a thread blocked in park without a token (a spurious wake-up chosen by the recording scheduler)",
+                  harness="c01_replay_fidelity_3 (the offered tasks were always Runnable stubs; their state is now symbolic: runnable or parked)"),
     "C20-1": dict(property="C20", what="From<std HashMap/HashSet> wraps an empty std collection as is (keeps its random hasher)",
                   needs="conversion of an empty std collection that is filled afterwards",
                   harness="c20_map_constructors_concrete_probes / c20_set_constructors_concrete_probes (the symbolic-probe harnesses time out on a failing tree: inverting SipHash; concrete probes added)"),
